@@ -30,6 +30,7 @@ type Op struct {
 	W     int      `json:"w,omitempty"`
 	Peers []string `json:"peers,omitempty"`
 	MaxC  int      `json:"maxc,omitempty"`
+	MaxP  int      `json:"maxp,omitempty"`
 	K     int      `json:"k,omitempty"`
 	P     string   `json:"p,omitempty"`
 	V     string   `json:"v,omitempty"`
@@ -42,6 +43,7 @@ type world struct {
 	origin  uint64
 	n, w    int
 	maxc    int
+	maxp    int   // maxResultsProcess for this queue (0 = the package default)
 	body    []int // body id of header k (index k-1)
 	peers   []string
 	headers []*types.Header // index k-1
@@ -82,7 +84,7 @@ func mkTxs(b int) []*types.Transaction {
 }
 
 func newWorld(op *Op, seed int64) *world {
-	w := &world{origin: uint64(7 + seed%5), n: op.N, w: op.W, maxc: op.MaxC, body: op.Body, peers: append([]string{}, op.Peers...),
+	w := &world{origin: uint64(7 + seed%5), n: op.N, w: op.W, maxc: op.MaxC, maxp: op.MaxP, body: op.Body, peers: append([]string{}, op.Peers...),
 		hashes: map[common.Hash]int{}}
 	sort.Strings(w.peers)
 	if w.maxc == 0 {
@@ -95,7 +97,7 @@ func newWorld(op *Op, seed int64) *world {
 		for k, h := range w.hlist {
 			w.hashes[h] = k + 1
 		}
-		w.q = downloader.NewVerifQueue(w.origin, w.w)
+		w.q = downloader.NewVerifQueue(w.origin, w.w, w.maxp)
 		return w
 	}
 	parent := (&types.Header{Number: new(big.Int).SetUint64(w.origin), Extra: []byte("verif-origin")}).Hash()
@@ -122,8 +124,15 @@ func newWorld(op *Op, seed int64) *world {
 	}
 	chainCache[key] = w.headers
 	hashCache[key] = w.hlist
-	w.q = downloader.NewVerifQueue(w.origin, w.w)
+	w.q = downloader.NewVerifQueue(w.origin, w.w, w.maxp)
 	return w
+}
+
+func (w *world) effMaxP() int {
+	if w.maxp > 0 {
+		return w.maxp
+	}
+	return 2048
 }
 
 func (w *world) rel(nums []uint64) []int {
@@ -305,7 +314,7 @@ func run(env *drive.Env) error {
 		}
 		w := newWorld(&beh[0], env.Seed)
 		env.Emit(map[string]interface{}{"ev": "Init", "args": map[string]interface{}{"n": w.n, "body": w.body, "w": w.w, "peers": w.peers,
-			"origin": w.origin}, "obs": w.obs()})
+			"origin": w.origin, "maxp": w.effMaxP()}, "obs": w.obs()})
 		dead := false
 		for i := 1; i < len(beh); i++ {
 			op := &beh[i]
